@@ -4,6 +4,25 @@ import Hs.Thm.C05perm
 #print axioms Hs.C05.lookup_perm
 #print axioms Hs.C05.writer_conforms_scalars
 #print axioms Hs.C05.writer_conforms_str
+-- both directions against the relation `Denotes` (Spec/HaysonDenote.lean): every Hayson document of a value
+-- (any member order at any depth, optional members present/absent, either number token class) is decoded to
+-- that value; the encoder's document is a Hayson document of the value
+#print axioms Hs.C05.C05_read_holds
+#print axioms Hs.C05.C05_write_holds
+#print axioms Hs.C05.C05_holds
+#print axioms Hs.C05.C05_roundtrip
+#print axioms Hs.C05.dict_objects_covered
+#print axioms Hs.C05.denotes_unique
+#print axioms Hs.C05.read_number_spelling
+#print axioms Hs.C05.denotes_respell
+#print axioms Hs.C05.d_ab_members
+#print axioms Hs.C05.d_ab_keys
+-- the reference reader (with readDoc's fuel) and the decoder agree on every Hayson document; writer conformance
+-- against the reference reader for every well-formed value
+#print axioms Hs.C05.C05_reader_agrees
+#print axioms Hs.C05.C05_writer_conforms
+#print axioms Hs.C05.reader_meta_kind_tag
+#print axioms Hs.C05.readDoc_lenient
 -- member order independence of the library's visitor model (Hs/Thm/C05perm.lean)
 #print axioms Hs.C05perm.visitMap_perm
 #print axioms Hs.C05perm.fromJson_obj_perm
